@@ -101,7 +101,7 @@ def follow_capture(fx, ctx_, b, local, depth=0):
             if child is None:
                 out.append((b, s))
                 continue
-            cb = ctx_.body(fx, child)
+            cb = _ibody(ctx_, fx, child)
             out.extend(follow_upvar(fx, ctx_, cb, s["idx"], depth + 1))
         elif s["k"] in ("call", "store", "ret", "yield", "agg"):
             out.append((b, s))
@@ -116,9 +116,52 @@ def follow_upvar(fx, ctx_, cb, idx, depth):
             if child is None:
                 out.append((cb, s))
                 continue
-            out.extend(follow_upvar(fx, ctx_, ctx_.body(fx, child), s["idx"], depth + 1))
+            out.extend(follow_upvar(fx, ctx_, _ibody(ctx_, fx, child), s["idx"], depth + 1))
         elif s["k"] in ("call", "store", "ret", "yield", "agg"):
             out.append((cb, s))
+    return out
+
+
+def _ibody(ctx_, fx, f):
+    """body of a closure / coroutine with crate-private helpers inlined (`responder.respond(res)` is the send it wraps)"""
+    import inline
+    return inline.body(ctx_, fx, f, inline.not_public)
+
+
+def slot_constructors(fx):
+    """crate-private functions that create a one-shot channel and hand both ends back as a pair, the sender possibly wrapped
+    in a newtype (`Responder::channel() -> (Responder<T>, Receiver<T>)`): their call sites are where a response slot comes
+    into being"""
+    cache = fx.__dict__.setdefault("_slot_ctors", None)
+    if cache is not None:
+        return cache
+    out = set()
+    for f in fx.d["fns"]:
+        if f["kind"] not in ("fn", "assoc_fn") or f.get("is_async") or f.get("vis") == "pub" or "pre" not in f:
+            continue
+        b = Body(f)
+        chans = [(bi, t) for bi, t in b.normal_calls() if t.get("callee") == "futures_channel::oneshot::channel"]
+        if len(chans) != 1:
+            continue
+        cbi = chans[0][0]
+        ok = True
+        for fld, want in (("f0", "f0"), ("f1", "f1")):
+            os_ = b.origins([0, fld])
+            for _ in range(3):  # look through newtype literals around the end
+                nxt = set()
+                for o in os_:
+                    if o.kind == "agg" and not o.proj:
+                        ops = b.blocks[o.site[0]]["s"][o.site[1]]["r"].get("ops") or []
+                        if len(ops) == 1:
+                            nxt |= b.origins(ops[0])
+                            continue
+                    nxt.add(o)
+                os_ = nxt
+            if not (os_ and all(o.kind == "call" and o.site == (cbi,) and o.proj[:1] == (want,) for o in os_)):
+                ok = False
+        if ok:
+            out.add(f["def"])
+    fx.__dict__["_slot_ctors"] = out
     return out
 
 
@@ -159,7 +202,13 @@ def check_response_value(ctx, fx, f, b, sb, s, inst):
                 else:
                     kinds.add("await:" + str(ct.get("callee")))
         elif o.kind in ("agg", "const"):
-            kinds.add("unit" if "()" in str(sb.locals[val["p"][0]]["ty"] if val["k"] != "const" else val.get("ty")) else "constant")
+            is_unit = "()" in str(sb.locals[val["p"][0]]["ty"] if val["k"] != "const" else val.get("ty"))
+            if not is_unit and o.kind == "agg":
+                st_ = sb.blocks[o.site[0]]["s"][o.site[1]]["r"]
+                is_unit = st_.get("ak") == "tuple" and not st_.get("ops")  # `()` passed for a generic parameter of an inlined helper
+            if not is_unit and o.kind == "const":
+                is_unit = str(o.site) == "()"
+            kinds.add("unit" if is_unit else "constant")
         else:
             kinds.add(o.kind)
     is_ping = f["def"].endswith("::ping::{closure#0}") or "::ping::" in sb.name
@@ -245,10 +294,13 @@ def _check_response_slots(ctx, fx, cfg):
     # R02.1
     n_slots = 0
     n_term = 0
+    sctors = slot_constructors(fx)
     for f in fx.d["fns"]:
+        if f["def"] in sctors:
+            continue  # judged at its call sites
         b = ctx.body(fx, f)
         for bi, t in b.normal_calls():
-            if t.get("callee") != "futures_channel::oneshot::channel":
+            if t.get("callee") != "futures_channel::oneshot::channel" and (t.get("resolved") or t.get("callee")) not in sctors:
                 continue
             # the termination channel (its sender becomes the StopNotifier) is not a response slot: R02.3 covers it
             if any(s["k"] == "agg" and s.get("def") == "context::StopNotifier" for s in graph.value_sinks(fx, b, t["dest"][0])):
